@@ -168,6 +168,9 @@ func (w *World) consumerBlock(a *Action) *StepResult {
 	if br.Failed() {
 		return res
 	}
+	if br.EngineHalt != "" {
+		w.Label("consumer-halted-empty-set")
+	}
 	for i, r := range br.Resp.TxResults {
 		if i >= len(q) {
 			break
